@@ -34,6 +34,7 @@ def erase (tbl : Tables) (m : Mode) (ty : String) : Val → Val
   | .scalar s => .scalar s
   | .blob => .blob
   | .plainPtr => .plainPtr
+  | .unnamed => .unnamed
   | .obj oty hn fields =>
       .obj oty (if m.isInline then true else rebuiltNode tbl oty hn)
         (erase tbl (objMode tbl m oty) (chainTy m oty) fields)
@@ -121,5 +122,13 @@ def kindOk (tbl : Tables) (k : FKind) : Bool :=
 /-- no emittable struct has a field whose value makes the compile command panic -/
 def noCrashKinds (tbl : Tables) : Bool :=
   (emittable tbl).all fun d => d.fields.all fun f => f.embeddedNode || f.ppSkip || kindOk tbl f.kind
+
+/-- a field whose slice / map element type has no name cannot be written by the reflective path
+(`emitSlice` prints `[]{`): every struct that has one and takes the reflective path when handed to
+`Emit` is one the handlers write by hand (registry `aux`: it never reaches `Emit` alone) -/
+def unnamedByHand (tbl : Tables) : Bool :=
+  (emittable tbl).all fun d =>
+    d.fields.all (fun f => f.embeddedNode || f.ppSkip || f.kind != .unnamedElems)
+      || (findHandler tbl.aux d.name).isSome
 
 end Spec.Emit
